@@ -62,6 +62,19 @@ def always(x):
     return True
 
 
+def inv(x):
+    return 1 / x > 0.1    # ZeroDivisionError on 0 / False, TypeError on str/None
+
+
+def nonzero(x):
+    assert x != 0, 'zero'   # AssertionError on 0 / False / 0.0
+    return True
+
+
+def keyed(x):
+    return {'a': 1, 'b': 2}[x] == 1    # KeyError on other hashables, TypeError on unhashables
+
+
 class PredObj:
     def __init__(self, fn):
         self.fn = fn
@@ -76,6 +89,8 @@ class PredObj:
 PREDS = {
     'pos': (pos, pos), 'short': (is_short, is_short), 'always': (always, always),
     'pos-obj': (PredObj(pos), pos), 'short-partial': (functools.partial(lambda lim, x: len(x) < lim, 3), is_short),
+    # predicates whose rejection is an exception of a class other than TypeError
+    'inv': (inv, inv), 'nonzero': (nonzero, nonzero), 'keyed': (keyed, keyed), 'nonzero-obj': (PredObj(nonzero), nonzero),
 }
 REGEXES = [
     ('[abc]+', None, ['a', 'abc', 'cab'], ['', 'abd', 'xa', 'A']),
@@ -413,7 +428,8 @@ def sample(p, rng, depth=0):
     if k == 'regex':
         return rng.choice(REGEXES[p[1]][2])
     if k == 'pred':
-        return {'pos': 5, 'pos-obj': 2.5, 'short': 'ab', 'short-partial': [1], 'always': rng.choice([None, 'x', 3])}[p[1]]
+        return {'pos': 5, 'pos-obj': 2.5, 'short': 'ab', 'short-partial': [1], 'always': rng.choice([None, 'x', 3]),
+                'inv': 2, 'nonzero': rng.choice([3, 'x']), 'keyed': 'a', 'nonzero-obj': 7}[p[1]]
     if k == 'm':
         op, c = p[1], p[2]
         return {'==': c, '!=': c + 1, '>': c + 2, '<': c - 1, '>=': c, '<=': c}[op]
